@@ -149,3 +149,61 @@ Definition prop_extract (input obs : val) : val :=
   | None => VT "ok"
   | Some c => VL [VT "FAIL"; VT "changed-outside-output-directory"; VT c]
   end.
+
+(* ---- kind "createextract" (C18) ----
+   input: (fs cwd outdir pathflag roots opts src srcpath dstpath)
+     roots   = what `car create` built, as presented to the extraction walk
+     srcpath = physical path of the source tree, dstpath = where its copy must appear
+               ((tskip) when the source is a lone symlink packed with --no-wrap)
+   observation: (status realroot fs-after rootinfo)
+     rootinfo = (n<number of roots> n<`car root` prints the header root> n<root is not the proxy>
+                 n<root block is in the archive>) *)
+Definition run_createextract (input : val) : val :=
+  match run_extract input with
+  | VL l => VL (l ++ [VL [VN 1; VN 1; VN 1; VN 1]])
+  | v => v
+  end.
+
+(* entries of fs below p, relative to p (p itself as the empty path) *)
+Fixpoint strip_prefix (p q : phys) : option phys :=
+  match p, q with
+  | [], _ => Some q
+  | x :: p', y :: q' => if bytes_eqb x y then strip_prefix p' q' else None
+  | _ :: _, [] => None
+  end.
+
+Fixpoint subtree (p : phys) (fs : fsmap) : fsmap :=
+  match fs with
+  | [] => []
+  | (q, n) :: t =>
+    match strip_prefix p q with
+    | Some r => (r, n) :: subtree p t
+    | None => subtree p t
+    end
+  end.
+
+Fixpoint fs_eqb (a b : fsmap) : bool :=
+  match a, b with
+  | [], [] => true
+  | (p, n) :: a', (q, m) :: b' => phys_eqb p q && node_eqb n m && fs_eqb a' b'
+  | _, _ => false
+  end.
+
+Definition prop_createextract (input obs : val) : val :=
+  let after := v_fs (vnth 2 obs) in
+  let ri := vnth 3 obs in
+  let opts := vnth 5 input in
+  let cls := VL [VT "v"; VN (vN (vnth 0 opts)); VT "nowrap"; VN (vN (vnth 1 opts)); VT "mode"; VN (vN (vnth 2 opts))] in
+  if negb ((vN (vnth 0 ri) =? 1) && vbool (vnth 1 ri) && vbool (vnth 2 ri) && vbool (vnth 3 ri))
+  then VL [VT "FAIL"; VT "root-is-not-the-single-printed-cid"; VT "create"]
+  else
+    let src := vnth 7 input in
+    let dst := vnth 8 input in
+    if is_tagv (vnth 0 dst) "skip" then VT "ok"
+    else
+      let a := subtree (v_phys src) (fs_canon after) in
+      let b := subtree (v_phys dst) (fs_canon after) in
+      if fs_eqb a b && negb (match a with [] => true | _ => false end) then VT "ok"
+      else VL [VT "FAIL"; VT "extracted-tree-differs-from-source";
+               VT (if vN (vnth 2 opts) =? 2 then (if vN (vnth 0 opts) =? 2 then "stdin-pipe-carv2" else "stdin-pipe-carv1")
+                   else if vN (vnth 2 opts) =? 1 then "stdin-file" else "file")].
